@@ -415,7 +415,28 @@ func run(c *mon.Ctx) {
 		// "a packet stream" is whatever an io.Reader hands out: all at once, in small pieces, one byte at a
 		// time, the last piece together with io.EOF
 		var src io.Reader = bytes.NewReader(in)
-		switch r.Intn(5) {
+		switch r.Intn(7) {
+		case 5, 6:
+			// a seekable reader that its owner has already advanced past earlier packets, among them another
+			// PAT: the stream is what is left in it
+			old := genPAT(r, 20)
+			pre := ref.PaddedPacket(0, r.Intn(16), true, append([]byte{0}, old.Section()...))
+			var lead []byte
+			for k := r.Intn(3); k > 0; k-- {
+				o := ref.PaddedPacket(1+r.Intn(8190), r.Intn(16), r.Bool(), r.Bytes(r.Intn(185)))
+				lead = append(lead, o[:]...)
+			}
+			lead = append(lead, pre[:]...)
+			all := append(append([]byte{}, lead...), in...)
+			br := bytes.NewReader(all)
+			br.Seek(int64(len(lead)), io.SeekStart)
+			src = br
+			if r.Bool() {
+				se := io.NewSectionReader(bytes.NewReader(all), 0, int64(len(all)))
+				se.Seek(int64(len(lead)), io.SeekStart)
+				src = se
+			}
+			c.Count("stream.seekable_reader_already_advanced")
 		case 1:
 			src = &pieces{b: in, max: 1}
 		case 2:
@@ -551,6 +572,7 @@ func run(c *mon.Ctx) {
 		c.Fail("IsPMT:nil-pat", fmt.Sprintf("IsPMT(pkt, nil) = %v, %v; want false and the nil-PAT error", g, err), nil)
 	}
 	c.Floor("stream.without_pat", 100)
+	c.Floor("stream.seekable_reader_already_advanced", 500)
 	c.Floor("stream.second_stream_with_the_same_pat_header", 300)
 	c.Floor("stream.pat_behind_megabytes", 5)
 }
